@@ -32,6 +32,9 @@ type RefTable struct {
 	// StaleLosses counts Lost(l) for an l that is not in the table while
 	// another link holds its uuid.
 	StaleLosses int
+	// RefusedDown counts Est events applied while the controller was not running.
+	RefusedDown int
+	refusedDown map[*Link]bool
 	// history of table states: states[k] = table after k events
 	states [][]*Link
 }
@@ -42,6 +45,36 @@ func NewRefTable(local peer.ID) *RefTable {
 	t.states = append(t.states, nil)
 	return t
 }
+
+// ApplyEvent replays one hook event, taking the life cycle of the controller
+// into account: a link reported established while the controller is not
+// running (the transport reported it during start-up and the call was applied
+// before the controller was up, or after it shut down) is refused: it must be
+// closed and the table stays unchanged. Whether the controller was running is
+// an observation about the environment of the call (the controller's peer id
+// in the lock-consistent snapshot), not a judgement of the table.
+func (t *RefTable) ApplyEvent(ev Event) {
+	if ev.Kind == KindEst && ev.Down() {
+		if ev.Link.Remote == t.Local {
+			t.MustClose[ev.Link] = "self link (remote peer is the local peer), reported while the controller was not running"
+		} else {
+			t.MustClose[ev.Link] = "reported established while the controller was not running"
+		}
+		t.RefusedDown++
+		if t.refusedDown == nil {
+			t.refusedDown = map[*Link]bool{}
+		}
+		t.refusedDown[ev.Link] = true
+		t.states = append(t.states, t.Links())
+		return
+	}
+	t.Apply(ev.Kind, ev.Link)
+}
+
+// WasRefusedDown reports whether some Est(l) was applied while the controller
+// was not running. The reference table refuses such a link; a check whose
+// property does not speak about the start-up phase should not rely on that.
+func (t *RefTable) WasRefusedDown(l *Link) bool { return t.refusedDown[l] }
 
 // Apply replays one event.
 func (t *RefTable) Apply(kind string, l *Link) {
